@@ -81,15 +81,21 @@ PROPS = {
     ),
     'C08': dict(
         title='All lookup entry points agree with lookup() and subscriptions()',
-        contracts=['C04_lookup'], falsifier='C08', modes=['py', 'c'], level='other',
+        contracts=['C04_lookup', 'C05_cache', 'C08_entry'], falsifier='C08', modes=['py', 'c'], level='other',
         only={'C04_lookup': ['adapter.py:_lookupAll']},
-        level_text='_lookupAll is verified from its real body against the recursive override specification (least specific first, '
-                   'so the most specific registration wins per name; nothing but the result mapping changes). Agreement of the '
-                   'entry points (lookup1, lookupAll/names, queryAdapter, adapter_hook, queryMultiAdapter, subscribers), defaults '
-                   'by identity and rejection of non-string names on cached and uncached paths are checked bounded on random '
-                   'worlds under random cache warm-up orders in both implementations, labelled bounded.',
-        level_note='deductive for the collector only; entry points bounded.',
-        explanation='proof obligations for _lookupAll discharged; agreement between entry points decided by bounded checking only',
+        level_text='Verified from the real bodies (Python reference): _lookupAll against the recursive override specification; '
+                   'LookupBase.lookup returns the cached value or what the uncached search answers, None meaning the default by identity, '
+                   'and raises ValueError for a non-string name before touching anything; lookup1(r, p, n) is specified by the very '
+                   'expression of lookup((r,), p, n); adapter_hook/queryAdapter call the factory lookup finds on providedBy(object) with '
+                   'the underlying object of a super proxy and turn a missing factory or a None result into the default; '
+                   'queryMultiAdapter does the same for several objects; names lists the keys of lookupAll in order; subscribers calls '
+                   'every subscription once in order with the objects, drops None results and returns nothing for handlers (ghost call '
+                   'log); lookupAll/subscriptions return the cached or the uncached answer. All of them keep the cache invariant of C05. '
+                   'The C twins and the end-to-end agreement under random cache warm-up orders are checked bounded in both '
+                   'implementations, labelled bounded.',
+        level_note='providedBy is a pure oracle here (C01); factories/subscribers are external calls with result oracles and do not '
+                   'mutate the registry; VerifyingBase (generation check) and the C twins bounded.',
+        explanation='Python entry points proved against one lookup/subscriptions specification; C twins and verifying flavour bounded',
     ),
     'C09': dict(
         title='Registration bookkeeping reflects exactly the net effect of the history',
@@ -108,22 +114,31 @@ PROPS = {
     ),
     'C05': dict(
         title='Lookup caches are transparent: answers never depend on earlier lookups',
-        contracts=['C04_lookup', 'C02_spec', 'C09_registry'], falsifier='C05', modes=['py', 'c'], level='other',
+        contracts=['C04_lookup', 'C02_spec', 'C09_registry', 'C05_cache'], falsifier='C05', modes=['py', 'c'], level='other',
         cfunctions=['_subcache', '_getcache', '_lookup', '_lookup1', '_adapter_hook', '_lookupAll', '_subscriptions'],
         creturns={'_subcache': 'borrowed', '_getcache': 'borrowed'},
         only={'C04_lookup': ['adapter.py:AdapterLookupBase._uncached_lookup'],
               'C02_spec': ['interface.py:Specification.changed', 'interface.py:Specification.__setBases'],
-              'C09_registry': ['adapter.py:LookupBase.changed', 'adapter.py:BaseAdapterRegistry.changed', 'adapter.py:AdapterRegistry.changed', 'adapter.py:BaseAdapterRegistry.register', 'adapter.py:BaseAdapterRegistry.unregister', 'adapter.py:BaseAdapterRegistry.subscribe', 'adapter.py:BaseAdapterRegistry.unsubscribe']},
+              'C09_registry': ['adapter.py:LookupBase.changed', 'adapter.py:BaseAdapterRegistry.changed', 'adapter.py:AdapterRegistry.changed', 'adapter.py:BaseAdapterRegistry.register', 'adapter.py:BaseAdapterRegistry.unregister', 'adapter.py:BaseAdapterRegistry.subscribe', 'adapter.py:BaseAdapterRegistry.unsubscribe'],
+              'C05_cache': ['adapter.py:LookupBase._getcache', 'adapter.py:LookupBase.lookup', 'adapter.py:LookupBase.lookupAll',
+                            'adapter.py:LookupBase.subscriptions', 'adapter.py:LookupBase.lookup1', 'adapter.py:LookupBase.adapter_hook',
+                            'adapter.py:LookupBase.queryAdapter']},
         level_text='The invalidation edges are verified from the real bodies: _uncached_lookup subscribes the lookup object to every '
                    'required specification on every path; __bases__ assignment keeps the subscription invariant and changed() '
                    'notifies every dependent (C02 contracts); every registry mutator either touches nothing or ends by notifying '
                    'the registry; BaseAdapterRegistry.changed bumps the generation and empties the three caches of its lookup object '
                    '(LookupBase.changed); AdapterRegistry.changed reaches every registered sub-registry; in the C lookup functions a '
                    'value computed by a call-out is only stored into a cache dictionary acquired before it (obligation St of the C '
-                   'front end: an answer computed before a re-entrant invalidation never lands in the live cache). Transparency itself (a cache '
-                   'entry, once stored, equals the uncached answer) is checked bounded: random interleavings (<= 9 steps) of all entry '
-                   'points with every mutation kind, compared with cold registries.',
-        level_note='cache-filling paths of LookupBase (lookup/lookup1/adapter_hook/lookupAll/subscriptions) and the C twins are bounded.',
+                   'front end: an answer computed before a re-entrant invalidation never lands in the live cache). The cache-filling '
+                   'methods of the Python reference (_getcache, lookup, lookup1, adapter_hook, queryAdapter, lookupAll, subscriptions) are '
+                   'verified to keep the invariant "every cache entry equals what the uncached search answers in the current state '
+                   '(ghost epoch)" -- also when the call-out to the uncached search re-enters and invalidates: the node fetched before '
+                   'the call-out is then an orphan and the stale answer never reaches the rebuilt tree. That the epoch advances on every '
+                   'relevant mutation is the invalidation chain above. The end-to-end statement is checked bounded: mutations completing '
+                   'while a lookup is in flight, and random interleavings (<= 9 steps) of all entry points with every mutation kind, '
+                   'compared with cold registries, both implementations.',
+        level_note='the uncached searches as seen by the cache layer and VerifyingBase (generation snapshot) are assumed contracts; the C '
+                   'twins are covered by the St/U/L obligations and bounded differential runs.',
         explanation='invalidation edges proved; cache-filling and end-to-end transparency bounded',
     ),
     'C06': dict(
